@@ -15,6 +15,8 @@ fn kind_of(k: &FailKind) -> ErrorKind {
     FailKind::Other => ErrorKind::Other,
     FailKind::BrokenPipe => ErrorKind::BrokenPipe,
     FailKind::PermissionDenied => ErrorKind::PermissionDenied,
+    FailKind::WouldBlock => ErrorKind::WouldBlock,
+    FailKind::TimedOut => ErrorKind::TimedOut,
   }
 }
 
